@@ -104,6 +104,34 @@ def fuelOfList {α : Type} (xs : List α) : Nat := xs.length
 
 def boolToInt (b : Bool) : Int := if b then 1 else 0
 
+/-- an exception whose attributes matter to the code that catches it: class name and integer attributes
+(e.g. `MissingDataError(offset, expected_length)`) -/
+structure Err where
+  cls : String
+  args : List Int
+  deriving Repr, BEq, DecidableEq
+
+/-- a computation that raises plain exceptions, used where exceptions carry data -/
+def liftE {α : Type} : Except String α → Except Err α
+  | .ok v => .ok v
+  | .error s => .error ⟨s, []⟩
+
+/-- `try: x except …: handler` for one raising step -/
+def catchWith {ε α : Type} (x : Except ε α) (h : ε → Except ε α) : Except ε α :=
+  match x with
+  | .ok v => .ok v
+  | .error e => h e
+
+/-- the i-th integer attribute of a caught exception -/
+def excArg (e : Err) (i : Nat) : Int := e.args.getD i 0
+
+/-- `issubclass(cls, base)` along the single-inheritance chain given by `parent` (fuel: class hierarchies are shallow) -/
+def isSubAux (parent : String → Option String) : Nat → String → String → Bool
+  | 0, c, b => c == b
+  | fuel + 1, c, b => c == b || (match parent c with | some p => isSubAux parent fuel p b | none => false)
+
+def isSub (parent : String → Option String) (c b : String) : Bool := isSubAux parent 12 c b
+
 /-- `s * n` for a `str` -/
 def strRepeat (s : List Char) (n : Int) : List Char := (List.replicate n.toNat s).flatten
 
